@@ -50,8 +50,11 @@ def check(run, prog, tier):
 
 def rule_F(run, prog):
     """The block handed out must be the block recorded: collect_block_distributed_data and its siblings take the
-    indices of this process from config.range.  Sibling agreement: in each of the three helpers every return of a
-    block is preceded, on its path, by `config.range = <that block>`."""
+    indices of this process from config.range.  Sibling agreement over the three helpers: where the work is distributed
+    (the branch `config.parallel_level == 1`) every return of a block is preceded by `config.range = <that block>`.
+    Where it is not distributed - a serial run, or a region nested in another one - the block is recorded exactly when
+    the region is the outermost one (`config.parallel_region == 1`): recorded not at all, the collecting functions work
+    with the block of an earlier loop; recorded unconditionally, a nested loop overwrites the record of the loop around it."""
     rid = "C20-F"
     from ..loader import parents_map
     n = 0
@@ -59,27 +62,49 @@ def rule_F(run, prog):
         f = prog.func("quantarhei.core.parallel." + nme)
         prog.consulted.add(f.relpath)
         pm = parents_map(f.node)
-        for r in [x for x in walk_no_nested(f.node) if isinstance(x, ast.Return) and x.value is not None]:
-            # statements before the return in the enclosing blocks, innermost first, up to the branch on parallel_level
-            node, found = r, False
-            while node is not f.node and node is not None and not found:
-                par = pm.get(node)
-                for fld in ("body", "orelse"):
-                    b = getattr(par, fld, None)
-                    if isinstance(b, list) and node in b:
-                        for st_ in b[:b.index(node)]:
-                            if isinstance(st_, ast.Assign) and any(norm(t_) == "config.range" for t_ in st_.targets):
-                                found = True
-                if isinstance(par, ast.If) and "parallel_level" in norm(par.test):
-                    break
-                node = par
-            n += 1
-            run.obligation(rid, nme, found, key="records-block:%s" % norm(r)[:40],
-                           message="%s hands out a block (%s) without recording it in config.range on this path: the "
-                                   "collecting functions then work with the block of an earlier call" % (nme, norm(r)[:50]),
-                           loc=f.loc(r), sample={"helper": nme, "return": norm(r)[:60]})
+        top = [x for x in f.node.body if isinstance(x, ast.If) and "parallel_level" in norm(x.test)]
+        if len(top) != 1 or norm(top[0].test).replace(" ", "") != "config.parallel_level==1":
+            raise AnalysisError("%s: branch on config.parallel_level == 1 not found" % nme)
+        for branch, blk in (("distributing", top[0].body), ("not distributing", top[0].orelse)):
+            rets = [x for st in blk for x in ast.walk(st) if isinstance(x, ast.Return) and x.value is not None]
+            stores = [x for st in blk for x in ast.walk(st) if isinstance(x, ast.Assign) and any(norm(t_) == "config.range" for t_ in x.targets)]
+            for r in rets:
+                n += 1
+                uncond = [s_ for s_ in stores if s_ in blk and s_.lineno < r.lineno]
+                guarded = [s_ for s_ in stores if isinstance(pm.get(s_), ast.If) and pm.get(s_) in blk
+                           and norm(pm.get(s_).test).replace(" ", "") == "config.parallel_region==1" and not pm.get(s_).orelse
+                           and s_.lineno < r.lineno]
+                if branch == "distributing":
+                    ok = bool(uncond)
+                    msg = ("%s hands out a block (%s) without recording it in config.range on this path: the collecting "
+                           "functions then work with the block of an earlier call" % (nme, norm(r)[:50]))
+                else:
+                    ok = bool(guarded) and not uncond
+                    msg = ("%s, when it does not distribute, %s: %s" % (
+                        nme, "records the block unconditionally" if uncond else "does not record the block of the outermost region",
+                        "a loop in a nested region overwrites the block recorded by the loop around it, whose data are then "
+                        "collected for the wrong indices" if uncond else
+                        "the collecting functions then work with the block of an earlier call"))
+                run.obligation(rid, nme, ok, key="records-block:%s:%s" % (branch[:3], norm(r)[:40]), message=msg,
+                               loc=f.loc(r), sample={"helper": nme, "branch": branch, "return": norm(r)[:60]})
     if n < 6:
         raise AnalysisError("C20-F: only %d block returns found" % n)
+    # the sum goes back into the reduced array whatever its rank
+    ar = prog.func("quantarhei.core.parallel.DistributedConfiguration.allreduce")
+    prog.consulted.add(ar.relpath)
+    arr = ar.node.args.args[1].arg
+    wb = [x for x in ast.walk(ar.node) if isinstance(x, ast.Assign) and isinstance(x.targets[0], ast.Subscript)
+          and norm(x.targets[0].value) == arr]
+    if not wb:
+        raise AnalysisError("allreduce: write-back into the reduced array not found")
+    for x in wb:
+        sl = x.targets[0].slice
+        ok = (isinstance(sl, ast.Constant) and sl.value is Ellipsis) or \
+            (isinstance(sl, ast.Slice) and sl.lower is None and sl.upper is None and sl.step is None)
+        run.obligation(rid, "DistributedConfiguration.allreduce", ok, key="write-back-any-rank",
+                       message="allreduce writes the sum back with %s, which fixes the number of indices of the array: a result "
+                               "vector (or a 3-index tensor) that is summed over the processes raises IndexError as soon as the work "
+                               "is shared, although the same program runs serially" % norm(x.targets[0]), loc=ar.loc(x))
 
 
 def rule_D(run, prog, f, tier):
